@@ -321,10 +321,25 @@ def run_plain(case, jpath):
     return res
 
 
+def failure_class(impl):
+    """a small stable class for a failed run: (ERR, status, stderr text)"""
+    text = ' '.join(str(x) for x in impl[1:])
+    if impl[1] == 'timeout':
+        return 'timeout'
+    if isinstance(impl[1], int) and impl[1] < 0:
+        return 'signal'
+    for pat, name in [('out of valid range', 'date-out-of-range'), ('improperly initialized', 'interval-not-initialized'),
+                      ('Failed to find period', 'no-period-found'), ('Invalid date', 'invalid-date'),
+                      ('Unexpected date period token', 'period-syntax')]:
+        if pat in text:
+            return name
+    return 'unreadable-output' if impl[1] in ('row', 'amount', 'format') else 'error'
+
+
 def run_period(case):
     st, out, err = lib.run_ledger(fmt_args(case) + ['period', case['expr'], '--now', '2021/06/15'])
     if st != 0:
-        return ('ERR', st)
+        return ('ERR', st, err.decode('utf-8', 'replace')[:200])
     text = out.decode()
     m = re.search(r'--- After stabilization ---\n(.*?)\n\n--- Sample dates in range \(max\. 20\) ---\n(.*)', text, re.S)
     if not m:
@@ -526,6 +541,12 @@ def check_reg(res, case, journal, impl, plain, model):
     if case.get('group'):
         res.count('reg:group-by')
     # correspondence
+    if impl[0] != 'OK':
+        # oracle: every expression and journal generated here is valid, and the property says what the report
+        # contains - a report that ends in an error (or a crash, or runs out of time) counts no posting at all
+        res.violations.append(dict(key='reg:%s:report-failed:%s' % (dur_label(case), failure_class(impl)),
+                                   desc='reg --period %s %s fails: %s' % (case['expr'], opts, str(impl[1:])[:200]), case=full,
+                                   observed=str(impl)[:300], required='one row per non-empty interval within the bounds'))
     if impl[0] != 'OK' or model[0] != 'OK' or (case.get('group') and any(g is None for g in model[1])):
         if impl[0] != model[0] or impl[0] == 'OK':
             res.disagreements.append(dict(name='C13/reg-rows', case=full, impl=str(impl)[:300], model=str(model)[:300]))
@@ -593,6 +614,10 @@ def check_period(res, case, impl, model_line):
     full = dict(expr=case['expr'], q=case['q'], n=case['n'], fmt=case.get('fmt'), bfmt=case.get('bfmt'), **{'from': case['from'], 'to': case['to']})
     res.count('period:input-date-format=%s' % (case.get('fmt') or 'none'))
     body = model_line.split(' ', 1)[1]
+    if impl[0] != 'OK':
+        res.violations.append(dict(key='period:%s:report-failed:%s' % (dur_label(case), failure_class(impl)),
+                                   desc='period %s fails: %s' % (case['expr'], str(impl[1:])[:200]), case=full,
+                                   observed=str(impl)[:300], required='start, finish and sample intervals'))
     if body == 'ERR' or impl[0] != 'OK':
         if not (body == 'ERR' and impl[0] != 'OK'):
             res.disagreements.append(dict(name='C13/period-cmd', case=full, impl=str(impl)[:300], model=body[:300]))
@@ -836,6 +861,8 @@ def replay(ctx, obj):
     elif 'expr' in case:
         impl = run_period(case)
         print('replay: %s period %r -> %s' % (' '.join(fmt_args(case)), case['expr'], str(impl)[:600]))
+        if impl[0] != 'OK':
+            res.violations.append(dict(key='period:report-failed:' + failure_class(impl), desc='period %s fails: %s' % (case['expr'], str(impl[1:])[:200])))
         if impl[0] == 'OK':
             ivs = century_fix(impl[4])
             for key, desc in oracle_intervals(dict(case, align=False, sow=0), ivs, True, 'period'):
